@@ -26,7 +26,7 @@ class Img(np.ndarray):
     pass
 
 
-def blob_movie(rng, nframes, amp=200, bg=0):
+def blob_movie(rng, nframes, amp=200, bg=0, late=False):
     """small uint8 blob movie for find_link_iter (blobs of amplitude amp on a constant background bg)"""
     n = rng.randint(2, 4)
     pos = [[rng.randint(12, 52), rng.randint(12, 52)] for _ in range(n)]
@@ -35,10 +35,19 @@ def blob_movie(rng, nframes, amp=200, bg=0):
         pos[i][0] = 12 + (i * 14) % 42
     frames = []
     yy, xx = np.mgrid[0:64, 0:64]
+    # births and deaths: a blob may appear only in a later frame (a trajectory born while other jobs are running)
+    # or vanish before the end
+    born = [rng.choice([0, 0, 1, 2]) for _ in pos]
+    dies = [rng.choice([99, 99, 99, 2, 3]) for _ in pos]
+    if all(b > 0 for b in born):
+        born[0] = 0
+    if late:
+        born[-1] = rng.randint(1, max(1, nframes - 1)); dies[-1] = 99
     for t in range(nframes):
         img = np.zeros((64, 64)) + bg
-        for p in pos:
-            img += amp * np.exp(-((yy - p[0]) ** 2 + (xx - p[1]) ** 2) / (2 * 2.0 ** 2))
+        for k, p in enumerate(pos):
+            if born[k] <= t < dies[k]:
+                img += amp * np.exp(-((yy - p[0]) ** 2 + (xx - p[1]) ** 2) / (2 * 2.0 ** 2))
             p[1] += rng.randint(-2, 2)
             p[1] = min(max(p[1], 10), 54)
         im = np.clip(img, 0, 255).astype(np.uint8).view(Img)
@@ -47,13 +56,13 @@ def blob_movie(rng, nframes, amp=200, bg=0):
     return frames
 
 
-def make_job(rng, kind):
+def make_job(rng, kind, late=False):
     if kind == 'find_link':
         amp, bg = rng.choice([(200, 0), (60, 0), (100, 120), (40, 0), (120, 60)])
-        nfr = rng.randint(2, 4)
+        nfr = rng.randint(3 if late else 2, 5)
         # detections withheld from the linker in frames after the first (forces relocation from the image)
         withhold = {t: rng.choice(['all', 'first', 'none']) for t in range(1, nfr)}
-        return dict(kind=kind, images=blob_movie(rng, nfr, amp=amp, bg=bg), memory=rng.choice([0, 1]), amp=amp, bg=bg, withhold=withhold)
+        return dict(kind=kind, images=blob_movie(rng, nfr, amp=amp, bg=bg, late=late), memory=rng.choice([0, 1]), amp=amp, bg=bg, withhold=withhold)
     q = rng.random() < 0.4
     fr = linkgen.gen_movie(rng, quarter=q, nframes=rng.randint(2, 6))
     ndim = fr[0].shape[1]
@@ -212,6 +221,17 @@ def _run(chk):
             jobs = [make_job(rng, 'find_link'), make_job(rng, 'find_link')]
             sched = [j for j, job in enumerate(jobs) for _ in range(nsteps(job))]
             rng.shuffle(sched)
+        elif rng.random() < 0.15:
+            # a find_link job in which a trajectory is born in a later frame, while another job (of any kind) starts
+            # and advances in between: the newborn must get an id from ITS job
+            a = make_job(rng, 'find_link', late=True)
+            kd = rng.choice(['iter', 'df_iter', 'whole', 'find_link'])
+            b = make_job(rng, kd) if kd != 'whole' else dict(make_job(rng, 'iter'), kind='whole')
+            jobs = [a, b]
+            sched = [j for j, job in enumerate(jobs) for _ in range(nsteps(job))]
+            rng.shuffle(sched)
+            if sched[0] != 0:
+                sched.remove(0); sched.insert(0, 0)
         elif rng.random() < 0.4:
             # targeted: a job with memory holding vanished particles, a small job started in between
             a = make_job(rng, rng.choice(['iter', 'df_iter']))
@@ -232,7 +252,7 @@ def _run(chk):
             sched = [0] * cut + [1] + rest
         else:
             nj = rng.choice([2, 2, 3])
-            kinds = [rng.choice(['iter', 'iter', 'df_iter', 'whole'] + (['find_link'] if rng.random() < 0.12 else [])) for _ in range(nj)]
+            kinds = [rng.choice(['iter', 'iter', 'df_iter', 'whole'] + (['find_link', 'find_link'] if rng.random() < 0.3 else [])) for _ in range(nj)]
             jobs = [make_job(rng, kd) if kd != 'whole' else dict(make_job(rng, 'iter'), kind='whole') for kd in kinds]
             sched = [j for j, job in enumerate(jobs) for _ in range(nsteps(job))]
             rng.shuffle(sched)
